@@ -109,6 +109,9 @@ def run_case(case, rep, record=True):
         if record and len(rep.samples) < rep.max_samples:
             rep.sample(dict(source=case["source"]["kind"], hosts=len(spec.addrs), n_ops=len(case["ops"]),
                             ops=[list(o) for o in case["ops"][:8]], final_compromised=[a for a, v in h.mst.items() if v[0]]))
+    except walk.SourceRejected as e:
+        if record:
+            rep.count(f"source-rejected({e.owner})")
     except Failure as f:
         fail(f, nops)
     except Exception as e:
